@@ -37,6 +37,12 @@ def build(kind, seed):
         return nn.Sequential(nn.Linear(4, 5), Scale(5), nn.Tanh(), nn.Linear(5, 3)), lambda g, n: torch.randn(n, 4, generator=g)
     if kind == 'norm':
         return nn.Sequential(nn.Linear(4, 6), nn.LayerNorm(6), nn.GroupNorm(2, 6), nn.Linear(6, 3)), lambda g, n: torch.randn(n, 4, generator=g)
+    if kind == 'mixed':
+        # a backbone the user put in eval mode (its dropout is inactive) under a root in train mode
+        backbone = nn.Sequential(nn.Linear(4, 6), nn.Dropout(0.5), nn.Tanh())
+        m = nn.Sequential(backbone, nn.Linear(6, 3))
+        backbone.eval()
+        return m, lambda g, n: torch.randn(n, 4, generator=g)
     raise ValueError(kind)
 
 
@@ -122,19 +128,37 @@ def run_case(c):
         else:
             wrapped, dpo, _ = eng.make_private(**kw)
             crit = crit0
+        # 0. wrapping leaves the train / eval flag of every sub-module as the user set it, and computes the same function in those modes
+        flags0 = {n: m_.training for n, m_ in twin.named_modules()}
+        flags1 = {n: m_.training for n, m_ in model.named_modules()}
+        if flags1 != flags0:
+            fail('mode-flags', 'make_private changed the train / eval flag of %s' % sorted(n for n in flags0 if flags1.get(n) != flags0[n])[:4])
+        else:
+            x = mk(g, 3)
+            a, b = wrapped(x), twin(x)
+            reset_probe(model)
+            wrapped.zero_grad()
+            if float((a - b).abs().max()) > 1e-12:
+                fail('forward-differs', 'wrapped forward differs from the original module in the modes the user set: %.3g' % float((a - b).abs().max()))
         # 1. forward transparency (same parameters: nothing trained yet), train and eval mode
         for mode_train in (True, False):
             wrapped.train(mode_train)
             twin.train(mode_train)
             for n in (1, 3, 5):
                 x = mk(g, n)
-                a, b = wrapped(x), twin(x)
+                torch.manual_seed(c['seed'] + n)          # layers that draw random numbers (dropout) draw the same ones in both
+                a = wrapped(x)
+                torch.manual_seed(c['seed'] + n)
+                b = twin(x)
                 reset_probe(model)
                 if a.shape != b.shape or float((a - b).abs().max()) > 1e-12:
                     fail('forward-differs', 'wrapped forward differs from the original module (train=%s, n=%d): %.3g' % (mode_train, n, float((a - b).abs().max())))
             wrapped.zero_grad()
         wrapped.train(True)
         twin.train(True)
+        if c['model'] == 'mixed':       # back to the user's mixed setting on both
+            model[0].eval()
+            twin[0].eval()
         # 2. the very same parameter objects
         if [id(p) for p in wrapped.parameters()] != ids0:
             fail('param-identity', 'wrapped.parameters() are not the original parameter objects')
